@@ -88,7 +88,7 @@ def attribute(entry: Any, v: Any) -> bool:
     global _ATTR  # pylint: disable=global-statement
     if _ATTR is None:
         _ATTR = findings.any_of(
-            findings.by_repair(worker, lambda it: it[2], lambda it, s: (it[0], it[1], s)),
+            findings.by_repair(worker, lambda it: it[2], lambda it, s: (it[0], it[1], s), patches=("kind-partitions",)),
             findings.by_patch(worker),
         )
     return _ATTR(entry, v)
